@@ -167,6 +167,9 @@ def run(idx, rep, tier):
     rep.analysed(mm.fparse, *[m for n, m in mm.tcls.methods.items() if n != "__init__"], idx.method("ExpressionUtility", "get_name_and_qualifiers"),
                  idx.method("ExpressionUtility", "_parse_quoted"))
     name_split(idx, rep, "R2")
+    # the text handed to the match grammar is the csvpath as written: only outer comments are split off (C15's split corpus)
+    from . import c15
+    c15.r6(idx, K.as_rule(rep, "R6", keep=lambda k: "extract_csvpath_and_comment" in k or "extract_metadata" in k))
     # ---- R1 static
     try:
         lark.Lark(mm.gsrc, parser="lalr", start=mm.ctor.get("start", "match"))
